@@ -973,6 +973,13 @@ Definition act_type_definition_pid (args : list pyval) : res pyval :=
                  else [] in
         match vals with
         | PStr _ :: _ => Ok (PDict (dict_set (dict_set d "properties" (PDict props)) "base_type" (PStr base)))
+        | PDict c0 :: _ =>
+            (* type_name id LP multiple_column_names RP: the list holds column dicts; `"type" in p_list[3][0]` is a key test *)
+            let props2 :=
+                if String.eqb (upper base) "ENUM" then [("values", PList vals)]
+                else if String.eqb (upper base) "OBJECT" then (if dict_has c0 "type" then [("attributes", PList vals)] else [])
+                else [] in
+            Ok (PDict (dict_set (dict_set d "properties" (PDict props2)) "base_type" (PStr base)))
         | _ => Unsupported "type_definition: values"
         end
   | _ => Unsupported "type_definition form"
@@ -1301,7 +1308,14 @@ Definition action_more (norm : bool) (prod : string) (args : list pyval) : res p
     else if String.eqb prod "expr -> domain_name id LP pid RP" then act_domain_as args
     else if String.eqb lhs "type_create" then Ok PNone
     else if String.eqb lhs "type_name" then act_type_name args
-    else if String.eqb prod "type_definition -> type_name id LP pid RP" then act_type_definition_pid args
+    else if String.eqb prod "type_definition -> type_name id LP pid RP"
+            || String.eqb prod "type_definition -> type_name id LP multiple_column_names RP" then act_type_definition_pid args
+    else if String.eqb prod "multiple_column_names -> column" then
+      match args with [PDict c] => Ok (PList [PDict c]) | _ => Unsupported "multiple_column_names form" end
+    else if String.eqb prod "multiple_column_names -> multiple_column_names COMMA" then
+      match args with [PList l; _] => Ok (PList l) | _ => Unsupported "multiple_column_names form" end
+    else if String.eqb prod "multiple_column_names -> multiple_column_names column" then
+      match args with [PList l; c] => Ok (PList (l ++ [c])%list) | _ => Unsupported "multiple_column_names form" end
     else if String.eqb prod "expr -> type_definition" then
       match args with [PDict d] => Ok (PDict d) | _ => Unsupported "unit production on a non-dict" end
     else if String.eqb lhs "id_equals" then act_id_equals args
